@@ -318,3 +318,31 @@ Proof.
   - intros e' Hin [M P]. pose proof (find_none _ _ E e' Hin) as X. cbn beta in X.
     rewrite M, N.eqb_refl in X. apply (proj2 (list_eqb_eq _ _)) in P. rewrite P in X. discriminate.
 Qed.
+
+(* ---------------------------------------------------------------- overrides *)
+Lemma override_descs_spec tbl os key fs :
+  In (key, fs) (override_descs tbl os) <->
+  (In (key, fs) tbl /\ overridden os (fst (fst key)) (snd (fst key)) = false) \/ In (key, fs) (ovr_descs os).
+Proof.
+  unfold override_descs. rewrite in_app_iff, filter_In. cbn [fst snd].
+  split; intros [[H1 H2]|H]; auto; left; split; auto.
+  - now destruct (overridden os _ _).
+  - now rewrite H2.
+Qed.
+Lemma override_pids_spec tbl os (e : pid_entry) :
+  In e (override_pids tbl os) <->
+  (In e tbl /\ overridden os (fst (fst e)) (snd (fst e)) = false) \/
+  In e (map (fun o => (ovr_man o, ovr_pid o, snd (fst o))) os).
+Proof.
+  unfold override_pids. rewrite in_app_iff, filter_In.
+  split; intros [[H1 H2]|H]; auto; left; split; auto.
+  - now destruct (overridden os _ _).
+  - now rewrite H2.
+Qed.
+Lemma override_none tbl ptbl : override_descs tbl [] = tbl /\ override_pids ptbl [] = ptbl.
+Proof.
+  unfold override_descs, override_pids, overridden. cbn [existsb negb ovr_descs flat_map map].
+  rewrite !app_nil_r. split.
+  - induction tbl as [|x r IH]; cbn [filter]; [reflexivity|now rewrite IH].
+  - induction ptbl as [|x r IH]; cbn [filter]; [reflexivity|now rewrite IH].
+Qed.
